@@ -295,11 +295,22 @@ def check_edit(case, ctx):
         if (kind.startswith("flip_weighted") or kind.endswith("_list_order")
                 or kind.endswith("_big_int") or kind == "weight_zero_vs_one"):
             # the only edits that also adjust the first content
-            hx, bx = B.build(T1, U, case["a"], hash_fn=_hash())
+            try:
+                hx, bx = B.build(T1, U, case["a"], hash_fn=_hash())
+                if kind == "weight_zero_vs_one":
+                    h2, b2 = B.build(T2, U, case["b"], hash_fn=_hash())
+            except ValueError:
+                if kind != "weight_zero_vs_one":
+                    raise
+                # nothing says that a weight of 0 can be stored: a container that refuses it
+                # (ValueError) has no pair of objects to compare
+                ctx.exclude("the container refuses a hyperedge weight of 0")
+                continue
             v1 = _hash_checked(hx, "the first object")
         else:
             bx, v1 = b1, v_base
-        h2, b2 = B.build(T2, U, case["b"], hash_fn=_hash())
+        if kind != "weight_zero_vs_one":
+            h2, b2 = B.build(T2, U, case["b"], hash_fn=_hash())
         ctx.trace = {"edit": kind, "content_1": _content_json(T1), "content_2": _content_json(T2),
                      "history_1": bx.trace, "history_2": b2.trace}
         v2 = _hash_checked(h2, "the edited object")
